@@ -108,7 +108,15 @@ class USBIsochronousStreamOutEndpoint(Elaboratable):
 
         sufficient_space         = (fifo.space_available >= self._max_packet_size)
 
-        okay_to_receive          = targeting_endpoint & sufficient_space
+        # Decide whether we have room for a packet once, as its first byte arrives, and stick to that decision
+        # for the rest of the packet: re-evaluating it per byte would truncate a packet as the buffer fills up
+        # (or pick up the tail of a packet once the consumer has made some room).
+        accept_packet            = Signal()
+        packet_accepted          = Mux(rx_first, sufficient_space, accept_packet)
+        with m.If(rx.next & rx.valid & rx_first):
+            m.d.usb += accept_packet.eq(sufficient_space)
+
+        okay_to_receive          = targeting_endpoint & packet_accepted
         data_is_lost             = okay_to_receive & rx.next & rx.valid & fifo.full
 
         full_packet              = rx_cnt == self._max_packet_size - 1
